@@ -31,6 +31,8 @@ class blockiterator(object):
         if bitlen>mlen: raise PaddingError('input bitlen mismatch')
         if padding is False and bitlen%self.blocksize>0:
             raise PaddingError('input not a multiple of block size')
+        if padding is False and mlen==0:
+            return
         P = BytesIO(m)
         Pi = P.read(self.blocklen)
         bitcnt = 0
